@@ -140,4 +140,20 @@ theorem field_write_table_nonempty :
 example : GoNfsd.Model.Skeleton.fieldWriteCheck ("nfs.Nfs.NFSPROC3_WRITE", "nfs.Nfs", "pendingUnstable", "shared") = false := by decide
 example : GoNfsd.Model.Skeleton.fieldWriteCheck ("inode.Inode.Write", "inode.Inode", "Size", "shared") = true := by decide
 
+/-! ### cached inodes are reached under their lock -/
+
+/-- EVERY ACCESS TO A CACHED INODE IS ORDERED BY THE INODE'S LOCK: an `*inode.Inode` is reached through its cache
+    slot only, and in every function of package `fstxn` (table `slotUses`, REGENERATED from fstxn/*.go on every run:
+    the calls of `Lockmap.Acquire` / `Release` and `Icache.LookupSlot`, and the calls among the listed functions, in
+    source order) the slot is looked up only while the inode's lock is held — so two requests that touch the same
+    cached inode, or the slot's `Obj` field itself, are separated by a release → acquire of that lock
+    (`lockset_race_free`).  (Seeded change C14o adds `GetInodeCached`, which hands READDIRPLUS the cached inode of an
+    entry it cannot lock in order: `Ls3` then reads size, times and link count while CREATE / WRITE / the shrinker
+    write them under the lock.) -/
+theorem cached_inodes_are_reached_under_their_lock :
+    ∀ f ∈ GoNfsd.Gen.Skeleton.slotUses, GoNfsd.Model.Skeleton.slotCheck f = true := by decide
+
+example : GoNfsd.Model.Skeleton.slotCheck ("GetInodeCached", [(0, "LookupSlot")]) = false := by decide
+example : ("LockInode", [(0, "Acquire"), (0, "LookupSlot")]) ∈ GoNfsd.Gen.Skeleton.slotUses := by decide
+
 end GoNfsd.Props.C14
